@@ -39,8 +39,23 @@ namespace
         K_SETACT,
         K_UNPLAN,
         K_EXEC,
+        // the rest of the public API that changes a timer's timing or membership
+        K_SET_START,    // set_start on an unplanned timer (planned later through plan(tim))
+        K_SET_INTERVAL, // set_interval on an unplanned timer
+        K_SHIFT,        // shift() on an unplanned timer
+        K_PLAN0,        // plan(tim): plan with the fields the object holds
+        K_RESTART,      // set_start(now+off); plan(tim)   - also on a planned timer
+        K_REINTERVAL,   // set_interval(iv); plan(tim)     - also on a planned timer
+        K_SHIFTPLAN,    // shift(); plan(tim)              - also on a planned timer
+        K_RECREATE,     // destroy the timer object (planned or not) and construct a new one
         K_COUNT
     };
+    const char *kind_name(int k)
+    {
+        static const char *n[] = {"plan(tim,start,interval)", "set-callback", "unplan", "exec", "set_start (unplanned)", "set_interval (unplanned)", "shift (unplanned)",
+                                  "plan(tim)", "set_start+plan(tim)", "set_interval+plan(tim)", "shift+plan(tim)", "destroy+construct"};
+        return n[k];
+    }
     struct Op
     {
         int kind, tim;
@@ -59,6 +74,30 @@ namespace
             break;
         case K_UNPLAN:
             snprintf(b, sizeof b, "unplan(t%d)", o.tim);
+            break;
+        case K_SET_START:
+            snprintf(b, sizeof b, "t%d.set_start(now%+lld)", o.tim, (long long)o.b);
+            break;
+        case K_SET_INTERVAL:
+            snprintf(b, sizeof b, "t%d.set_interval(%lld)", o.tim, (long long)o.a);
+            break;
+        case K_SHIFT:
+            snprintf(b, sizeof b, "t%d.shift()", o.tim);
+            break;
+        case K_PLAN0:
+            snprintf(b, sizeof b, "plan(t%d)", o.tim);
+            break;
+        case K_RESTART:
+            snprintf(b, sizeof b, "t%d.set_start(now%+lld)+plan(t%d)", o.tim, (long long)o.b, o.tim);
+            break;
+        case K_REINTERVAL:
+            snprintf(b, sizeof b, "t%d.set_interval(%lld)+plan(t%d)", o.tim, (long long)o.a, o.tim);
+            break;
+        case K_SHIFTPLAN:
+            snprintf(b, sizeof b, "t%d.shift()+plan(t%d)", o.tim, o.tim);
+            break;
+        case K_RECREATE:
+            snprintf(b, sizeof b, "delete t%d; new t%d", o.tim, o.tim);
             break;
         default:
             snprintf(b, sizeof b, "exec(now+=%lld)", (long long)o.a);
@@ -149,28 +188,63 @@ namespace
             syslock_reset();
             mgr = new igris::timer_manager;
             host = new Host;
+            unit_ = unit;
             for (int i = 0; i < NT; i++)
             {
-                switch (i % 4)
-                {
-                case 0:
-                    tim[i] = new igris::timer<int>(igris::make_delegate(cb_plain), (int)i);
-                    break;
-                case 1:
-                    tim[i] = new igris::timer<int>(igris::make_delegate(cb_ext, (void *)&cur), (int)i);
-                    break;
-                case 2:
-                    tim[i] = new igris::timer<int>(igris::make_delegate(&Host::cb, host), (int)i);
-                    break;
-                default:
-                    tim[i] = new OwnTimer(i);
-                }
-                planned[i] = false;
-                start[i] = 0;
-                interval[i] = unit;
+                construct(i);
                 action[i] = A_NOTHING;
             }
             cur = this;
+        }
+        int64_t unit_ = 1;
+        // a new timer object: unplanned, start = 0, interval = 0 (the reference mirrors the object's fields also while unplanned)
+        void construct(int i)
+        {
+            switch (i % 4)
+            {
+            case 0:
+                tim[i] = new igris::timer<int>(igris::make_delegate(cb_plain), (int)i);
+                break;
+            case 1:
+                tim[i] = new igris::timer<int>(igris::make_delegate(cb_ext, (void *)&cur), (int)i);
+                break;
+            case 2:
+                tim[i] = new igris::timer<int>(igris::make_delegate(&Host::cb, host), (int)i);
+                break;
+            default:
+                tim[i] = new OwnTimer(i);
+            }
+            planned[i] = false;
+            start[i] = 0;
+            interval[i] = 0;
+        }
+        // catch-up is one callback per elapsed period: keep the number of periods a (start, interval) lies behind `now` bounded
+        bool bounded_catchup(__int128 st, int64_t iv) const { return iv > 0 && ((__int128)now - st) / iv <= 2000; }
+        // is the operation inside the contract / the representable domain in the current state?
+        bool legal(const Op &o) const
+        {
+            int i = o.tim;
+            switch (o.kind)
+            {
+            case K_PLAN:
+                return ok_plan((__int128)now + o.b, o.a) && bounded_catchup((__int128)now + o.b, o.a);
+            case K_SET_START: // setters without a following plan() only while unplanned: the list is sorted at plan() time
+                return !planned[i] && fits64((__int128)now + o.b) && (interval[i] == 0 || ok_plan((__int128)now + o.b, interval[i]));
+            case K_SET_INTERVAL:
+                return !planned[i] && o.a > 0 && ok_plan(start[i], o.a);
+            case K_SHIFT:
+                return !planned[i] && interval[i] > 0 && ok_plan((__int128)start[i] + interval[i], interval[i]);
+            case K_PLAN0:
+                return interval[i] > 0 && ok_plan(start[i], interval[i]) && bounded_catchup(start[i], interval[i]);
+            case K_RESTART:
+                return interval[i] > 0 && ok_plan((__int128)now + o.b, interval[i]) && bounded_catchup((__int128)now + o.b, interval[i]);
+            case K_REINTERVAL:
+                return o.a > 0 && ok_plan(start[i], o.a) && bounded_catchup(start[i], o.a);
+            case K_SHIFTPLAN:
+                return interval[i] > 0 && ok_plan((__int128)start[i] + interval[i], interval[i]) && bounded_catchup((__int128)start[i] + interval[i], interval[i]);
+            default:
+                return true;
+            }
         }
         int64_t deadline(int i) const { return start[i] + interval[i]; }
         // for messages only: x relative to the initial now, saturating
@@ -229,7 +303,8 @@ namespace
                 throw vf::CaseFailed();
         }
         // ---- operations on igris + reference
-        void plan_both(int i, int64_t st, int64_t iv, bool two_step)
+        // every way the public API offers to give a timer (start, interval) and put it into the manager
+        void plan_both(int i, int64_t st, int64_t iv, uint64_t form)
         {
             // harness self-check: the workload must stay where everything igris computes is representable
             if (!ok_plan(st, iv))
@@ -237,14 +312,45 @@ namespace
                 violation("harness:domain", "plan(start=%lld, interval=%lld) at now=%lld leaves the int64 domain", (long long)st, (long long)iv, (long long)now);
                 return;
             }
-            if (two_step)
+            int f = (int)(form % 5);
+            if (f == 3 && iv != interval[i])
+                f = (int)((form >> 3) % 3);
+            if (f == 4 && st != start[i])
+                f = (int)((form >> 3) % 3);
+            static int form_ids[5];
+            static bool have;
+            if (!have)
             {
+                const char *n[5] = {"plan form: plan(tim,start,interval)", "plan form: set_start,set_interval,plan(tim)", "plan form: set_interval,set_start,plan(tim)",
+                                    "plan form: set_start,plan(tim) (interval kept)", "plan form: set_interval,plan(tim) (start kept)"};
+                for (int k = 0; k < 5; k++)
+                    form_ids[k] = vf::clause_id(n[k]);
+                have = true;
+            }
+            vf::clause_hit(form_ids[f]);
+            switch (f)
+            {
+            case 0:
+                mgr->plan(*tim[i], st, iv);
+                break;
+            case 1:
                 tim[i]->set_start(st);
                 tim[i]->set_interval(iv);
                 mgr->plan(*tim[i]);
+                break;
+            case 2:
+                tim[i]->set_interval(iv);
+                tim[i]->set_start(st);
+                mgr->plan(*tim[i]);
+                break;
+            case 3:
+                tim[i]->set_start(st);
+                mgr->plan(*tim[i]);
+                break;
+            default:
+                tim[i]->set_interval(iv);
+                mgr->plan(*tim[i]);
             }
-            else
-                mgr->plan(*tim[i], st, iv);
             planned[i] = true;
             start[i] = st;
             interval[i] = iv;
@@ -307,11 +413,11 @@ namespace
                 break;
             case A_REPLAN_SELF:
                 plans_in_exec++;
-                plan_both(id, now + (fired_in_exec & 1), interval[id], fired_in_exec & 2);
+                plan_both(id, now + (fired_in_exec & 1), interval[id], variant + (uint64_t)fired_in_exec * 7);
                 break;
             case A_PLAN_OTHER:
                 plans_in_exec++;
-                plan_both(other, now - 1, interval[other], fired_in_exec & 2);
+                plan_both(other, now - 1, interval[other] > 0 ? interval[other] : unit_, variant + (uint64_t)fired_in_exec * 7);
                 break;
             }
             // reference: a timer still planned when its callback returns is re-armed at its deadline + interval
@@ -321,11 +427,68 @@ namespace
         void apply(const Op &o, uint64_t v)
         {
             variant = v;
+            {
+                static int kids[K_COUNT];
+                static bool have;
+                if (!have)
+                {
+                    for (int k = 0; k < K_COUNT; k++)
+                        kids[k] = vf::clause_id((std::string("op ") + kind_name(k)).c_str());
+                    have = true;
+                }
+                vf::clause_hit(kids[o.kind]);
+            }
             switch (o.kind)
             {
             case K_PLAN:
                 optag = planned[o.tim] ? "plan@already-planned" : "plan";
-                plan_both(o.tim, now + o.b, o.a, v & 1);
+                plan_both(o.tim, now + o.b, o.a, v);
+                break;
+            case K_SET_START:
+                optag = "set_start";
+                tim[o.tim]->set_start(now + o.b);
+                start[o.tim] = now + o.b;
+                break;
+            case K_SET_INTERVAL:
+                optag = "set_interval";
+                tim[o.tim]->set_interval(o.a);
+                interval[o.tim] = o.a;
+                break;
+            case K_SHIFT:
+                optag = "shift";
+                tim[o.tim]->shift();
+                start[o.tim] += interval[o.tim];
+                break;
+            case K_PLAN0:
+                optag = planned[o.tim] ? "plan(tim)@already-planned" : "plan(tim)";
+                mgr->plan(*tim[o.tim]);
+                planned[o.tim] = true;
+                break;
+            case K_RESTART:
+                optag = planned[o.tim] ? "set_start+plan(tim)@already-planned" : "set_start+plan(tim)";
+                tim[o.tim]->set_start(now + o.b);
+                mgr->plan(*tim[o.tim]);
+                start[o.tim] = now + o.b;
+                planned[o.tim] = true;
+                break;
+            case K_REINTERVAL:
+                optag = planned[o.tim] ? "set_interval+plan(tim)@already-planned" : "set_interval+plan(tim)";
+                tim[o.tim]->set_interval(o.a);
+                mgr->plan(*tim[o.tim]);
+                interval[o.tim] = o.a;
+                planned[o.tim] = true;
+                break;
+            case K_SHIFTPLAN:
+                optag = planned[o.tim] ? "shift+plan(tim)@already-planned" : "shift+plan(tim)";
+                tim[o.tim]->shift();
+                mgr->plan(*tim[o.tim]);
+                start[o.tim] += interval[o.tim];
+                planned[o.tim] = true;
+                break;
+            case K_RECREATE:
+                optag = planned[o.tim] ? "delete-timer@planned" : "delete-timer";
+                delete tim[o.tim];
+                construct(o.tim);
                 break;
             case K_SETACT:
                 optag = "set-callback";
@@ -474,19 +637,47 @@ namespace
     };
     const Scale SCALES[] = {{"x1", 1000, 1}, {"x2^31", 0, P31}, {"x2^32 clock from 2^32-7", P32 - 7, P32}, {"x(2^31+1) clock from -2^40", -P40, P31 + 1}, {"x2^56 clock from -2^62", -P62, 1LL << 56}};
     const int NSCALES = sizeof SCALES / sizeof SCALES[0];
-    Op decode(int c, int64_t K = 1)
+    // generic alphabet over dn timers; ext adds the rest of the public API (setters, shift, plan(tim), restart pairs, destroy)
+    int alpha_n(int dn, bool ext) { return dn * 6 + dn * A_COUNT + dn + 4 + (ext ? dn * (2 + 3 + 1 + 1 + 2 + 3 + 1 + 1) : 0); }
+    Op decode_n(int c, int64_t K, int dn, bool ext)
     {
-        if (c < A_PLAN)
+        (void)ext;
+        if (c < dn * 6)
             return Op{K_PLAN, c / 6, IVS[(c / 2) % 3] * K, OFFS[c % 2] * K};
-        c -= A_PLAN;
-        if (c < A_SET)
+        c -= dn * 6;
+        if (c < dn * A_COUNT)
             return Op{K_SETACT, c / A_COUNT, c % A_COUNT, 0};
-        c -= A_SET;
-        if (c < A_UNP)
+        c -= dn * A_COUNT;
+        if (c < dn)
             return Op{K_UNPLAN, c, 0, 0};
-        c -= A_UNP;
-        return Op{K_EXEC, 0, DTS[c] * K, 0};
+        c -= dn;
+        if (c < 4)
+            return Op{K_EXEC, 0, DTS[c] * K, 0};
+        c -= 4;
+        if (c < dn * 2)
+            return Op{K_SET_START, c / 2, 0, OFFS[c % 2] * K};
+        c -= dn * 2;
+        if (c < dn * 3)
+            return Op{K_SET_INTERVAL, c / 3, IVS[c % 3] * K, 0};
+        c -= dn * 3;
+        if (c < dn)
+            return Op{K_SHIFT, c, 0, 0};
+        c -= dn;
+        if (c < dn)
+            return Op{K_PLAN0, c, 0, 0};
+        c -= dn;
+        if (c < dn * 2)
+            return Op{K_RESTART, c / 2, 0, OFFS[c % 2] * K};
+        c -= dn * 2;
+        if (c < dn * 3)
+            return Op{K_REINTERVAL, c / 3, IVS[c % 3] * K, 0};
+        c -= dn * 3;
+        if (c < dn)
+            return Op{K_SHIFTPLAN, c, 0, 0};
+        c -= dn;
+        return Op{K_RECREATE, c, 0, 0};
     }
+    Op decode(int c, int64_t K = 1) { return decode_n(c, K, DN, false); }
     uint64_t variant_of(const std::vector<int> &h, size_t i)
     {
         uint64_t x = vf::mix(vf::seed(), 0xC16);
@@ -506,12 +697,12 @@ namespace
         }
         return exec_after;
     }
-    bool run_history(const std::vector<int> &h, int sc = 0)
+    bool run_history(const std::vector<int> &h, int sc = 0, int dn = DN, bool ext = false)
     {
         std::vector<Op> ops;
         for (int c : h)
-            ops.push_back(decode(c, SCALES[sc].K));
-        World *w = new World(DN, SCALES[sc].base, SCALES[sc].K);
+            ops.push_back(decode_n(c, SCALES[sc].K, dn, ext));
+        World *w = new World(dn, SCALES[sc].base, SCALES[sc].K);
         w->horizon = SCALES[sc].base + 120 * SCALES[sc].K;
         w->hist = &ops;
         try
@@ -520,13 +711,20 @@ namespace
             {
                 if (vf::verbose())
                     printf("  op %zu: %s\n", i, describe(ops[i]).c_str());
+                if (!w->legal(ops[i]))
+                {
+                    // outside the contract in this state (only the last op can be: shorter histories passed before)
+                    w->teardown(0);
+                    delete w;
+                    return false;
+                }
                 w->upto = i + 1;
                 w->apply(ops[i], variant_of(h, i));
                 w->settle();
                 if (i + 1 == ops.size())
                     w->check(); // the prefix was checked when it was the end of a shorter history
             }
-            vf::count_case(vf::mix(vf::hash_bytes(h.data(), h.size() * sizeof(int), 0xD0), (uint64_t)sc), nontrivial(ops));
+            vf::count_case(vf::mix(vf::hash_bytes(h.data(), h.size() * sizeof(int), 0xD0), (uint64_t)sc * 16 + (uint64_t)dn * 2 + ext), nontrivial(ops));
             if (sc && nontrivial(ops))
                 VF_OK("exhaustive history with every time quantity scaled by >= 2^31");
             w->teardown(h.empty() ? 0 : variant_of(h, h.size() - 1) >> 7);
@@ -539,21 +737,21 @@ namespace
             return false; // leak the world
         }
     }
-    void dfs(std::vector<int> &h, int maxdepth, int sc = 0)
+    void dfs(std::vector<int> &h, int maxdepth, int sc = 0, int dn = DN, bool ext = false, int thorough_den = 4)
     {
-        if (!run_history(h, sc))
+        if (!run_history(h, sc, dn, ext))
             return;
         if ((int)h.size() >= maxdepth)
             return;
         // thorough: the deepest level is a seeded 1/4 sample
-        int den = (vf::thorough() && (int)h.size() + 1 == maxdepth) ? 4 : 1;
+        int den = (vf::thorough() && (int)h.size() + 1 == maxdepth) ? thorough_den : 1;
         uint64_t hh = den > 1 ? vf::hash_bytes(h.data(), h.size() * sizeof(int), vf::seed()) : 0;
-        for (int c = 0; c < ALPHA; c++)
+        for (int c = 0, A = alpha_n(dn, ext); c < A; c++)
         {
             if (den > 1 && vf::mix(hh, (uint64_t)c) % (uint64_t)den != 0)
                 continue;
             h.push_back(c);
-            dfs(h, maxdepth, sc);
+            dfs(h, maxdepth, sc, dn, ext, thorough_den);
             h.pop_back();
         }
     }
@@ -615,6 +813,36 @@ namespace
     }
     VF_SUITE(timers_dfs_big, dfs_big_count, dfs_big_run)
 
+    // the whole public API that changes timing or membership (every plan overload, set_start, set_interval, shift alone on
+    // unplanned timers and paired with plan(tim) on planned ones, unplan, destruction while planned) over 2 timers:
+    // every history of length <= 4 (thorough 5, deepest level 1/16), and once more one level shallower scaled by 2^32
+    enum
+    {
+        AN = 2
+    };
+    uint64_t dfs_api_count()
+    {
+        uint64_t A = alpha_n(AN, true);
+        return limited("dfs_api", 2 * A * A);
+    }
+    void dfs_api_run(uint64_t idx)
+    {
+        uint64_t A = alpha_n(AN, true);
+        int sc = idx >= A * A ? 2 : 0;
+        idx %= A * A;
+        std::vector<int> h;
+        if (idx == 0)
+            run_history(h, sc, AN, true);
+        int a1 = (int)(idx / A), a2 = (int)(idx % A);
+        h.push_back(a1);
+        // the one-op history is evaluated (and counted once) before anything is built on it
+        if (a2 == 0 ? !run_history(h, sc, AN, true) : false)
+            return;
+        h.push_back(a2);
+        dfs(h, (vf::thorough() ? 5 : 4) - (sc ? 1 : 0), sc, AN, true, 16);
+    }
+    VF_SUITE(timers_dfs_api, dfs_api_count, dfs_api_run)
+
     // ------------------------------------------------------------------ random histories
     // value classes for one magnitude class: boundary values of S (2^31, 2^32, 2^60, 2^62 ...) and fractions of it
     int64_t big_interval(vf::Rng &r, int64_t S)
@@ -667,10 +895,23 @@ namespace
             for (int s = 0; s < steps; s++)
             {
                 Op o;
-                int k = (int)r.below(10);
+                bool found = false;
+                for (int tries = 0; tries < 30 && !found; tries++)
+                {
+                int k = (int)r.below(14);
                 o.tim = (int)r.below(NT);
-                o.b = 0;
-                if (k < 4)
+                o.a = o.b = 0;
+                if (k >= 10)
+                {
+                    // the rest of the API: setters / shift alone (unplanned timers), plan(tim), setter+plan(tim) pairs, destruction
+                    static const int alone[3] = {K_SET_START, K_SET_INTERVAL, K_SHIFT}, paired[3] = {K_RESTART, K_REINTERVAL, K_SHIFTPLAN};
+                    o.kind = k == 10 ? r.pick(alone) : k == 11 ? K_PLAN0 : k == 12 ? r.pick(paired) : (r.chance(1, 3) ? K_RECREATE : r.pick(paired));
+                    if (o.kind == K_SET_INTERVAL || o.kind == K_REINTERVAL)
+                        o.a = S ? (mode == 2 ? S / 2 : big_interval(r, S)) : (mode == 2 ? 2 : (int)r.pick(IVS) + (r.chance(1, 4) ? r.range(0, 30) : 0));
+                    if (o.kind == K_SET_START || o.kind == K_RESTART)
+                        o.b = S ? (mode == 2 ? 0 : big_offset(r, S)) : (r.chance(1, 2) ? 0 : r.range(-12, 6));
+                }
+                else if (k < 4)
                 {
                     o.kind = K_PLAN;
                     if (S)
@@ -729,9 +970,13 @@ namespace
                     want += o.a;
                     __int128 room = (__int128)mg.horizon - w->now;
                     o.a = (int64_t)(want <= room ? want : room / 2);
-                    if (o.a >= P31)
-                        big_exec = true;
                 }
+                found = w->legal(o);
+                }
+                if (!found)
+                    continue;
+                if (o.kind == K_EXEC && o.a >= P31)
+                    big_exec = true;
                 ops.push_back(o);
                 if (vf::verbose())
                     printf("  op %d: %s\n", s, describe(o).c_str());
@@ -841,7 +1086,7 @@ namespace
         bool big_seen = false;
         for (int s = 0; s < steps; s++)
         {
-            int k = inited ? (int)r.below(7) : (int)r.below(2);
+            int k = inited ? (int)r.below(10) : (int)r.below(2);
             long off = pick_off(), iv = pick_iv();
             if (!in62((__int128)now + off) || !in62((__int128)now + off + iv + 1) || !in62((__int128)m.start + iv + 1) || !in62((__int128)now + off + m.interval + 1))
                 off = 0, iv = 1 + (iv & 3);
@@ -870,6 +1115,27 @@ namespace
                 stimer_start(t, st);
                 m.planned = true;
                 m.start = st;
+                break;
+            // the structure is public: direct field writes are part of the API
+            case 7:
+                snprintf(b, sizeof b, "t->start=now%+ld; ", st - now);
+                hist += b;
+                t->start = st;
+                m.start = st;
+                VF_OK("stimer: direct write of a field (start / interval / planed)");
+                break;
+            case 8:
+                snprintf(b, sizeof b, "t->interval=%ld; ", iv);
+                hist += b;
+                t->interval = iv;
+                m.interval = iv;
+                VF_OK("stimer: direct write of a field (start / interval / planed)");
+                break;
+            case 9:
+                m.planned = (off ^ iv) & 1;
+                hist += m.planned ? "t->planed=1; " : "t->planed=0; ";
+                t->planed = m.planned;
+                VF_OK("stimer: direct write of a field (start / interval / planed)");
                 break;
             case 3:
                 if (!in62((__int128)m.start + 2 * (__int128)m.interval + 1))
@@ -971,6 +1237,12 @@ extern "C" void vf_setup()
         vf::require((std::string("callback action ") + act_name(a)).c_str());
     for (const char *c : {"exhaustive history with every time quantity scaled by >= 2^31", "random history with exec() steps of >= 2^31 ticks",
                           "stimer: checked with an elapsed time or interval beyond 32 bits"})
+        vf::require(c);
+    vf::require("stimer: direct write of a field (start / interval / planed)");
+    for (int k = 0; k < K_COUNT; k++)
+        vf::require((std::string("op ") + kind_name(k)).c_str());
+    for (const char *c : {"plan form: plan(tim,start,interval)", "plan form: set_start,set_interval,plan(tim)", "plan form: set_interval,set_start,plan(tim)",
+                          "plan form: set_start,plan(tim) (interval kept)", "plan form: set_interval,plan(tim) (start kept)"})
         vf::require(c);
     for (int i = 0; i < NMAGS; i++)
         vf::require((std::string("random history in magnitude class: ") + MAGS[i].name).c_str());
